@@ -2,7 +2,7 @@ from harness.core import Prop, Problem, call
 from harness import gen
 
 
-def _table(r, limit=60):
+def _table(r, limit=400):
     """a returned table as plain ints; a table with far more rows than any generated instance has alternatives is
     kept only in part (its size is what gets reported), so that a table that grows from call to call cannot exhaust
     the memory of the check"""
